@@ -1421,6 +1421,10 @@ fn rule_c12(ctx: &Ctx, out: &mut Vec<Violation>) {
                     Some((es, _, _)) if *es < dinv => continue, // ended before the delete
                     Some((_, _, StreamEnd::Dropped)) => continue,
                     Some((es, _, StreamEnd::Status(NOT_FOUND, _))) if *es < barrier.seq => {}
+                    // a control message of this stream was on its way when the subscription went:
+                    // that request raced the deletion and may fail with another error status, which
+                    // is then the status the stream ends with
+                    Some((es, _, StreamEnd::Status(code, _))) if *es < barrier.seq && *code != OK && st.sends.iter().any(|x| x.0 < *es && m.barriers.iter().rev().find(|b| b.seq < dinv && b.quiescent).map(|b| x.0 > b.seq).unwrap_or(true)) => {}
                     Some((es, _, end)) if *es < barrier.seq => {
                         out.push(v("C12.stream_status", format!("stream ended {:?}", std::mem::discriminant(end)), format!("StreamingPull #{} on {} ({}) ended with {:?} instead of NOT_FOUND after DeleteSubscription", st.slot, sub, side, end)));
                     }
